@@ -52,7 +52,7 @@ class Src:
         return t[m.start():b], t[b:e+1]
 
     def const(self, name):
-        m = re.search(r'(?:pub(?:\([a-z]+\))? )?const ' + re.escape(name) + r'\b.*? = ', self.s)
+        m = re.search(r'(?:pub(?:\([a-z]+\))? )?const ' + re.escape(name) + r'\b[^=]*?=\s', self.s)
         if not m: raise KeyError('anchor lost: const ' + name)
         # end at first ';' at bracket depth 0
         k = m.end(); depth = 0
